@@ -2,18 +2,19 @@
   Proofs/Functor.lean — C04: typing and functoriality of `Functor.apply`.
 -/
 import Proofs.WFOps
+import Proofs.Laws
 import Model.Functor
 
 namespace DV
 
 /-! ### `then` in closed form and its associativity / units -/
 
-theorem Diagram.then_eq {a b : Diagram} (h : a.layers.cod = b.layers.dom) :
+theorem Diagram.then_eqF {a b : Diagram} (h : a.layers.cod = b.layers.dom) :
     a.then b = .ok ⟨a.dom, b.cod, a.boxes ++ b.boxes, a.offsets ++ b.offsets,
       ⟨a.layers.dom, b.layers.cod, a.layers.boxes ++ b.layers.boxes⟩⟩ := by
   simp [Diagram.then, LArrow.then_eq_ok h]
 
-theorem Diagram.then_ok' {a b d : Diagram} (h : a.then b = .ok d) :
+theorem Diagram.then_okF {a b d : Diagram} (h : a.then b = .ok d) :
     a.layers.cod = b.layers.dom ∧
     d = ⟨a.dom, b.cod, a.boxes ++ b.boxes, a.offsets ++ b.offsets,
       ⟨a.layers.dom, b.layers.cod, a.layers.boxes ++ b.layers.boxes⟩⟩ := by
@@ -22,36 +23,36 @@ theorem Diagram.then_ok' {a b d : Diagram} (h : a.then b = .ok d) :
   exact ⟨hc, rfl⟩
 
 /-- Associativity of `>>` as an equality of results (no well-typedness needed). -/
-theorem Diagram.then_assoc {a b c x y : Diagram} (h1 : a.then b = .ok x) (h2 : x.then c = .ok y) :
+theorem Diagram.then_assocF {a b c x y : Diagram} (h1 : a.then b = .ok x) (h2 : x.then c = .ok y) :
     ∃ z, b.then c = .ok z ∧ a.then z = .ok y := by
-  obtain ⟨c1, rfl⟩ := Diagram.then_ok' h1
-  obtain ⟨c2, rfl⟩ := Diagram.then_ok' h2
+  obtain ⟨c1, rfl⟩ := Diagram.then_okF h1
+  obtain ⟨c2, rfl⟩ := Diagram.then_okF h2
   simp only at c2
-  refine ⟨_, Diagram.then_eq c2, ?_⟩
-  rw [Diagram.then_eq (by simpa using c1)]
+  refine ⟨_, Diagram.then_eqF c2, ?_⟩
+  rw [Diagram.then_eqF (by simpa using c1)]
   simp [List.append_assoc]
 
-theorem Diagram.then_assoc' {a b c z y : Diagram} (h1 : b.then c = .ok z) (h2 : a.then z = .ok y) :
+theorem Diagram.then_assocR {a b c z y : Diagram} (h1 : b.then c = .ok z) (h2 : a.then z = .ok y) :
     ∃ x, a.then b = .ok x ∧ x.then c = .ok y := by
-  obtain ⟨c1, rfl⟩ := Diagram.then_ok' h1
-  obtain ⟨c2, rfl⟩ := Diagram.then_ok' h2
+  obtain ⟨c1, rfl⟩ := Diagram.then_okF h1
+  obtain ⟨c2, rfl⟩ := Diagram.then_okF h2
   simp only at c2
-  refine ⟨_, Diagram.then_eq c2, ?_⟩
-  rw [Diagram.then_eq (by simpa using c1)]
+  refine ⟨_, Diagram.then_eqF c2, ?_⟩
+  rw [Diagram.then_eqF (by simpa using c1)]
   simp [List.append_assoc]
 
-theorem Diagram.then_assoc_mid {a b c x z : Diagram} (h1 : a.then b = .ok x) (h2 : b.then c = .ok z) :
+theorem Diagram.then_assocM {a b c x z : Diagram} (h1 : a.then b = .ok x) (h2 : b.then c = .ok z) :
     ∃ y, x.then c = .ok y ∧ a.then z = .ok y := by
-  obtain ⟨c1, rfl⟩ := Diagram.then_ok' h1
-  obtain ⟨c2, rfl⟩ := Diagram.then_ok' h2
-  refine ⟨_, Diagram.then_eq (by simpa using c2), ?_⟩
-  rw [Diagram.then_eq (by simpa using c1)]
+  obtain ⟨c1, rfl⟩ := Diagram.then_okF h1
+  obtain ⟨c2, rfl⟩ := Diagram.then_okF h2
+  refine ⟨_, Diagram.then_eqF (by simpa using c2), ?_⟩
+  rw [Diagram.then_eqF (by simpa using c1)]
   simp [List.append_assoc]
 
-theorem Diagram.id_then {t : Ty} {d : Diagram} (hd : d.WF) (h : d.dom = t) :
+theorem Diagram.id_thenF {t : Ty} {d : Diagram} (hd : d.WF) (h : d.dom = t) :
     (Diagram.id t).then d = .ok d := by
   have : (Diagram.id t).layers.cod = d.layers.dom := by simp [Diagram.id, LArrow.id, hd.ldom, h]
-  rw [Diagram.then_eq this]
+  rw [Diagram.then_eqF this]
   cases d with | mk dom cod boxes offsets layers =>
   cases layers with | mk ld lc lb =>
   have h1 := hd.ldom
@@ -59,10 +60,10 @@ theorem Diagram.id_then {t : Ty} {d : Diagram} (hd : d.WF) (h : d.dom = t) :
   subst h h1
   simp [Diagram.id, LArrow.id]
 
-theorem Diagram.then_id {t : Ty} {d : Diagram} (hd : d.WF) (h : d.cod = t) :
+theorem Diagram.then_idF {t : Ty} {d : Diagram} (hd : d.WF) (h : d.cod = t) :
     d.then (Diagram.id t) = .ok d := by
   have : d.layers.cod = (Diagram.id t).layers.dom := by simp [Diagram.id, LArrow.id, hd.lcod, h]
-  rw [Diagram.then_eq this]
+  rw [Diagram.then_eqF this]
   cases d with | mk dom cod boxes offsets layers =>
   cases layers with | mk ld lc lb =>
   have h1 := hd.lcod
@@ -311,7 +312,7 @@ theorem Functor.stepBox_acc (F : Functor) {scan scan' : Ty} {a r0 r0' res : Diag
         · rename_i res0 hres
           simp only [Except.ok.injEq, Prod.mk.injEq] at h
           obtain ⟨rfl, rfl⟩ := h
-          obtain ⟨y, hy1, hy2⟩ := Diagram.then_assoc_mid h0 hres
+          obtain ⟨y, hy1, hy2⟩ := Diagram.then_assocM h0 hres
           exact ⟨y, by simp only [hy1], hy2⟩
   all_goals cases h
 
@@ -355,7 +356,7 @@ theorem Functor.apply_then (F : Functor) {a b ab fa fb : Diagram} (ha : a.WF) (h
     (hab : a.then b = .ok ab) (hfa : F.apply a = .ok fa) (hfb : F.apply b = .ok fb) :
     ∃ r, fa.then fb = .ok r ∧ F.apply ab = .ok r := by
   obtain ⟨faw, _, facod⟩ := F.apply_props ha hok hfa
-  obtain ⟨hc, rfl⟩ := Diagram.then_ok' hab
+  obtain ⟨hc, rfl⟩ := Diagram.then_okF hab
   have hcod : a.cod = b.dom := by rw [← ha.lcod, ← hb.ldom]; exact hc
   unfold Functor.apply at hfa hfb ⊢
   split at hfa
@@ -367,7 +368,7 @@ theorem Functor.apply_then (F : Functor) {a b ab fa fb : Diagram} (ha : a.WF) (h
       simp only [hta]
       have htb' : tb = fa.cod := by
         rw [hcod, htb] at facod; exact (Except.ok.inj facod)
-      have hid : fa.then (Diagram.id tb) = .ok fa := Diagram.then_id faw htb'.symm
+      have hid : fa.then (Diagram.id tb) = .ok fa := Diagram.then_idF faw htb'.symm
       obtain ⟨q', hq1, hq2⟩ := F.loop_acc hid hfb
       refine ⟨q', hq2, ?_⟩
       have hlen : a.boxes.length = a.offsets.length := by rw [ha.boxes, ha.offsets]; simp
